@@ -179,3 +179,32 @@ extern "C" void h_wav_intake(void) {
     VF_WITNESS();
   } VF_CATCH
 }
+
+// chunk-search kernel (C05): a reader of symbolic length whose chunk headers are arbitrary; reads beyond the end fail like a real
+// file.  The search must end within length/8 + 1 header reads (a 32-bit cursor that wraps never ends).
+struct ChunkReader : Stream::BidirectionalReader {
+  uint64_t length = 0, pos = 0, headerReads = 0;
+  void ReadImplementation(void* buffer, std::size_t size) override {
+    if (size > length - pos) throw std::runtime_error("chunk: read beyond end");
+    vf_assert(size == 8, "harness: only chunk headers are read");
+    headerReads++;
+    vf_assert(headerReads <= length / 8 + 1, "chunk search does not terminate (more header reads than the file has room for)");
+    vf_havoc(buffer, 8);
+    pos += size;
+  }
+  std::size_t ReadPartial(void*, std::size_t) noexcept override { return 0; }
+  uint64_t Length() override { return length; }
+  uint64_t Position() override { return pos; }
+  void SeekForward(uint64_t o) override { if (o > length - pos) throw std::runtime_error("chunk: seek beyond end"); pos += o; }
+  void SeekBackward(uint64_t o) override { if (o > pos) throw std::runtime_error("chunk: seek before start"); pos -= o; }
+  void Seek(uint64_t p) override { pos = p; }     // like a file: seeking beyond the end succeeds, the next read fails
+};
+extern "C" void h_find_chunk(void) {
+  g_may_throw = true; g_expect_refusal = false;
+  ChunkReader r; r.length = vf_nondet_u64(); vf_assume(r.length <= 64);
+  VF_TRY {
+    uint32_t len = Archive::ClmFile::FindChunk(Archive::tagDATA, r);
+    vf_assert(r.Position() <= r.Length() && r.Position() >= 20, "found chunk header lies inside the file");
+    VF_WITNESS();
+  } VF_CATCH
+}
